@@ -1,7 +1,8 @@
 SPECIFICATION Spec
 CONSTANTS
   MaxBytes = 4
-  Cuts = {"transit", "stall"}
+  Cuts = {"transit", "stall", "sibling"}
+  AcceptorCloseKillsSocket = FALSE
   ForwarderWaitsOnNode = FALSE
   AcceptLeavesDeadline = FALSE
   MaxNotices = 1
